@@ -272,6 +272,9 @@ def vettedOf (kind : String) (a : List Nat) : List Nat :=
   | _, _ => []
 
 def check (m : Mon) (opl obs : String) : Mon × Option String :=
+  -- a sequence the harness could not run (e.g. the constructor trapped): no observation to judge;
+  -- the line still breaks the correspondence because the model has no such answer
+  if (words obs).any (· == "harness-panic") then (m, none) else
   let ws := words opl
   let ows := words obs
   let ok := ows.head? = some "ok"
